@@ -1,6 +1,7 @@
 // Whole-system simulation: manager + sockets (real library threads) against simulated caches over a
 // simulated transport, with wire/session/table oracles. DESIGN §4, §7, §8.
 #pragma once
+#include <map>
 #include "models.hpp"
 #include "scenario.hpp"
 #include "wire.hpp"
@@ -241,6 +242,8 @@ struct World {
 		bool released;
 	};
 	std::vector<Hold> holds;
+	// C15: task -> preference of the group it reported ESTABLISHED and on whose behalf it is closing others right now
+	std::map<int, int> acting_for;
 	int trig_sock = -1;
 	long trig_n = 0;
 	bool trig_fired = false;
